@@ -1,8 +1,9 @@
 ------------------------- MODULE Trace_WordBackend -------------------------
 (* Trace validation of the in-memory word streams against WordBackend.     *)
 (* Words are logged as their bytes; only equality and zero matter.         *)
-EXTENDS WordBackend, TLC, Json, IOUtils
+EXTENDS WordBackend, Integers, TLC, Json, IOUtils
 Max2(a, b) == IF a >= b THEN a ELSE b
+BS == INSTANCE BitSeqs
 ZeroWord == <<256>>
 
 Rec == ndJsonDeserialize(IOEnv.TRACE)
@@ -25,14 +26,33 @@ Init == l = 1 /\ bs = <<>>
 Reset == Is("reset") /\ Step /\ bs' = <<>>
 NewB == Is("wb_new") /\ Step /\ bs' = Put(bs, Ev.o, New(Ev.kind, Toks(Ev.data)))
 
+\* ---- positions beyond TLC's integers (set_word_pos takes a u64): logged as 8 bytes and kept
+\* as a bit sequence in the field `big'; the cursor field is then -1.  Only the zero-extended
+\* reader accepts them (any position, exactly); the others reject and do not move.
+Small(b) == b.cur >= 0
+HasBig(b) == "big" \in DOMAIN b
+SetPosBig == /\ Is("wb_setpos_big") /\ Step
+             /\ LET b == bs[Ev.o]  p == BS!BytesToNat(Ev.pb)
+                IN  IF b.kind = "inf"
+                    THEN Ev.res = "ok" /\ bs' = [bs EXCEPT ![Ev.o] = [x \in (DOMAIN b) \cup {"big"} |->
+                                                      IF x = "big" THEN p ELSE IF x = "cur" THEN -1 ELSE b[x]]]
+                    ELSE Ev.res = "err" /\ UNCHANGED bs
+PosBig == /\ Is("wb_pos_big") /\ Step /\ UNCHANGED bs
+          /\ LET b == bs[Ev.o] IN BS!BytesToNat(Ev.ret) = IF Small(b) THEN BS!FromInt(b.cur) ELSE b.big
+\* reading there: a zero word, the cursor moves on by one
+ReadBig == /\ Is("wb_read_big") /\ Step
+           /\ LET b == bs[Ev.o]
+              IN  /\ ~Small(b) /\ b.kind = "inf" /\ Ev.res = "ok" /\ Tok(Ev.v) = Zero
+                  /\ bs' = [bs EXCEPT ![Ev.o] = [b EXCEPT !.big = BS!Inc(@)]]
+
 \* candidate successors: the step predicates pick the right one
-Read == /\ Is("wb_read") /\ Step
+Read == /\ Is("wb_read") /\ Step /\ Small(bs[Ev.o])
         /\ LET b == bs[Ev.o]
            IN  \E b2 \in {b, [b EXCEPT !.cur = @ + 1]} :
                  /\ ReadStep(b, Ev.res, Tok(Ev.v), b2)
                  /\ bs' = [bs EXCEPT ![Ev.o] = b2]
 
-Write == /\ Is("wb_write") /\ Step
+Write == /\ Is("wb_write") /\ Step /\ Small(bs[Ev.o])
          /\ LET b == bs[Ev.o]  v == Tok(Ev.v)
                  stored == [b EXCEPT !.data = [i \in 1..Max2(Len(b.data), b.cur + 1) |->
                                                  IF i = b.cur + 1 THEN v
@@ -42,7 +62,7 @@ Write == /\ Is("wb_write") /\ Step
                   /\ WriteStep(b, v, Ev.res, b2)
                   /\ bs' = [bs EXCEPT ![Ev.o] = b2]
 
-Pos == Is("wb_pos") /\ Step /\ PosStep(bs[Ev.o], Ev.ret) /\ UNCHANGED bs
+Pos == Is("wb_pos") /\ Step /\ Small(bs[Ev.o]) /\ PosStep(bs[Ev.o], Ev.ret) /\ UNCHANGED bs
 LenE == Is("wb_len") /\ Step /\ LenStep(bs[Ev.o], Ev.ret) /\ UNCHANGED bs
 Inner == Is("wb_inner") /\ Step /\ InnerStep(bs[Ev.o], Toks(Ev.data)) /\ UNCHANGED bs
 
@@ -52,7 +72,7 @@ SetPos == /\ Is("wb_setpos") /\ Step
                    /\ SetPosStep(b, Ev.p, Ev.res, b2)
                    /\ bs' = [bs EXCEPT ![Ev.o] = b2]
 
-Next == Reset \/ NewB \/ Read \/ Write \/ Pos \/ LenE \/ Inner \/ SetPos
+Next == SetPosBig \/ PosBig \/ ReadBig \/ Reset \/ NewB \/ Read \/ Write \/ Pos \/ LenE \/ Inner \/ SetPos
 Spec == Init /\ [][Next]_vars
 
 Accepted ==
